@@ -12,6 +12,7 @@ package main
 import (
 	"fmt"
 	"math/rand"
+	"os"
 	"sort"
 	"strings"
 )
@@ -214,6 +215,311 @@ func c04Selector(r *rand.Rand, root interface{}) (string, interface{}, bool) {
 		}
 	}
 	return sel, cur, true
+}
+
+// ---- documents for the run through the real binary -------------------------------------------
+
+// strings that a printf-style writer, a shell-ish quoting step or a buffered writer would mangle
+var c04PctPieces = []string{"%", "%d", "%s", "%%", "%!", "%v", "%!s(MISSING)", "100%", "50% off", "%[1]d", "%-5s|", "%+v", "% x", "%c", "%q", "%5.2f", "%!(EXTRA string=x)", "%%%", "%\n", "%\"", "\\%", "%\\",
+	"\\", "\\\\", "\"", "\"\"", "'", "`", "$HOME", "$(x)", "\x00", "\x01", "\x1b[31m", "\x7f", "\b\f\n\r\t", "\r\n", "é", "日本語", "\U0001F642", "\u2028", " ", "<b>&amp;</b>", "\ufeff", "a", "key", "x y", "", "%s%s%s%s%s%s%s%s", "%n", "%*d", "%.*s"}
+
+func c04PctString(r *rand.Rand, long bool) string {
+	var sb strings.Builder
+	n := 1 + r.Intn(4)
+	for i := 0; i < n; i++ {
+		sb.WriteString(pick(r, c04PctPieces))
+	}
+	if long {
+		// long strings: past 4 kB / 64 kB write and pipe buffers
+		unit := pick(r, []string{"x", "%d ", "long é ", "50% ", "\\", "\"q\" "})
+		sb.WriteString(strings.Repeat(unit, pick(r, []int{200, 1500, 4096, 5000, 70000})/len(unit)+1))
+		sb.WriteString(pick(r, c04PctPieces))
+	}
+	return sb.String()
+}
+
+func c04PctDoc(r *rand.Rand, depth int, budget *int) string {
+	cfg := vgDocCfg{}
+	*budget--
+	k := r.Intn(10)
+	if depth >= 4 || *budget <= 0 {
+		k = r.Intn(6)
+	}
+	switch k {
+	case 0:
+		return pick(r, []string{"null", "true", "false", "[]", "{}"})
+	case 1:
+		return vgNumber(r)
+	case 2, 3, 4, 5:
+		return vgEncodeString(r, c04PctString(r, chance(r, 0.03)), cfg)
+	case 6, 7:
+		n := r.Intn(4)
+		parts := make([]string, n)
+		for i := range parts {
+			parts[i] = c04PctDoc(r, depth+1, budget)
+		}
+		return "[" + strings.Join(parts, pick(r, []string{",", ", ", " ,\n"})) + "]"
+	default:
+		n := r.Intn(4)
+		var parts []string
+		seen := map[string]bool{}
+		for i := 0; i < n; i++ {
+			key := c04PctString(r, chance(r, 0.01))
+			if seen[key] {
+				continue
+			}
+			seen[key] = true
+			parts = append(parts, vgEncodeString(r, key, cfg)+pick(r, []string{":", ": "})+c04PctDoc(r, depth+1, budget))
+		}
+		return "{" + strings.Join(parts, ",") + "}"
+	}
+}
+
+// c04BinaryDoc: the text of an input stream for the binary: a %-rich document, or one of the
+// rich documents of the library families (every escape form, invalid UTF-8, numeric extremes).
+func c04BinaryDoc(r *rand.Rand) string {
+	if chance(r, 0.3) {
+		return vgStream(r, vgRichCfg())
+	}
+	budget := 25
+	var doc string
+	for {
+		doc = c04PctDoc(r, 0, &budget)
+		if doc[0] == '[' || doc[0] == '{' || doc[0] == '"' || chance(r, 0.2) {
+			break
+		}
+		budget = 25
+	}
+	if chance(r, 0.1) {
+		b2 := 10
+		doc = c04PctDoc(r, 0, &b2) + pick(r, []string{"\n", " "}) + doc // a stream: -o writes the last value
+	}
+	return doc
+}
+
+func c04CliBasic(i Resp) string {
+	switch i["class"] {
+	case "nobinary":
+		return "JQAWK_BIN is not set: the binary was not run"
+	case "badrequest", "crash", "garbled":
+		return "harness problem running the binary: " + i.String()
+	}
+	stderr := string(i.Bytes("stderr"))
+	if strings.Contains(stderr, "goroutine ") || strings.Contains(stderr, "panic:") {
+		return "the binary panicked: " + short(stderr)
+	}
+	return ""
+}
+
+// c04CliJSONOracle: the JSON that reached stdout (-o -, after the program's own output `own`)
+// or the -o file re-parses, with Go's decoder, to `want`.
+func c04CliJSONOracle(want interface{}, toFile bool, own string) func(Resp) string {
+	return func(i Resp) string {
+		if w := c04CliBasic(i); w != "" {
+			return w
+		}
+		if i["exit"] != "0" {
+			return "the binary failed (exit " + i["exit"] + ") on a well-formed document and a program that cannot fail: " + short(string(i.Bytes("stderr")))
+		}
+		var text string
+		if toFile {
+			if i["ofexists"] != "1" {
+				return "-o FILE: no file was written"
+			}
+			text = string(i.Bytes("ofile"))
+			if got := string(i.Bytes("out")); got != own {
+				return fmt.Sprintf("-o FILE: stdout is %q, the program prints %q", short(got), short(own))
+			}
+		} else {
+			out := string(i.Bytes("out"))
+			if !strings.HasPrefix(out, own) {
+				return fmt.Sprintf("-o -: stdout %q does not start with the program's own output %q", short(out), short(own))
+			}
+			text = out[len(own):]
+		}
+		got, err := vgDecodeOne([]byte(text))
+		if err != nil {
+			return "the JSON written by the binary is not valid JSON for Go's decoder: " + err.Error() + ": " + short(text)
+		}
+		if !vgEqual(got, want) {
+			return "the JSON written by the binary parses to a different value: want " + short(vgShow(want)) + " got " + short(vgShow(got)) + " text " + short(text)
+		}
+		return ""
+	}
+}
+
+func c04CliNT(i Resp) bool { return i["exit"] == "0" && (i["out"] != "-" || i["ofexists"] == "1") }
+
+var c04CliFields = []string{"exit", "out", "err", "ofile", "ofexists"}
+
+// programs that print the document or parts of it (stdout path of the binary)
+var c04PrintProgs = []string{
+	"{ print $ }", "{ print json($) }", "{ print json($), $ }", "{ printf(\"%s\\n\", json($)) }", "{ printf(\"%s|%s|\\n\", \"100%\", json($)) }",
+	"BEGIN { print \"50%\", \"%d\", \"%%\", \"%!s(MISSING)\" }\n{ print json($) }", "BEGIN { printf(\"100%%|%s|%%d\\n\", \"%s\") }", "{ if ($ is object || $ is array) { for (k, v in $) print k, json(v) } }",
+	"{ x = \"%\" + json($) + \"%s\"; print x }", "END { print json($) }", "$ is string { print $, $.length(), $.upper() }",
+}
+
+func c04ThroughBinary(r *rand.Rand, tier string, emit func(Case)) {
+	if os.Getenv("JQAWK_BIN") == "" {
+		emit(Case{ID: "no-binary", Req: "cli - - - -", ImplOnly: true, Oracle: c04CliBasic,
+			Meta: map[string]string{"problem": "env JQAWK_BIN is not set; this family runs the real binary"}})
+		return
+	}
+	n := tierN(tier, 500, 12000)
+	for i := 0; i < n; i++ {
+		data := c04BinaryDoc(r)
+		if chance(r, 0.04) && len(data) > 0 {
+			b := []byte(data)
+			p := r.Intn(len(b))
+			b[p] = pick(r, []byte{'"', '\\', ',', '%', '}', 0x01, 'x'})
+			data = string(b)
+		}
+		vals, derr := vgDecodeAll([]byte(data))
+		wellFormed := derr == nil && len(vals) > 0
+		name := pick(r, []string{"in.json", "100%.json", "%d.json", "in.json"})
+		useStdin := chance(r, 0.25)
+		var disk []CliFile
+		var names []string
+		var stdin []byte
+		lib := []File{{Name: "<stdin>", Data: []byte(data)}}
+		if useStdin {
+			stdin = []byte(data)
+		} else {
+			disk = []CliFile{{Name: name, Data: []byte(data)}}
+			names = []string{name}
+			lib[0].Name = name
+		}
+		g := fmt.Sprintf("bin-%d", i)
+		if i%4 == 3 {
+			// stdout path: print / printf / json()
+			prog := pick(r, c04PrintProgs)
+			argv := append([]string{prog}, names...)
+			emit(Case{ID: g + "/lib", Req: RunReq(prog, nil, lib, false), Fields: []string{"class", "out"}, Group: g,
+				Meta: metaProg(prog, "input", short(data), "variant", "library run (reference of the group)")})
+			c := Case{ID: g + "/print", Req: CliReq(argv, stdin, useStdin, disk, ""), Fields: c04CliFields, Group: g, GroupFields: []string{"out"},
+				Meta: metaProg(prog, "input", short(data), "argv", strings.Join(argv, " ␣ "), "variant", "the binary: what print / printf / json() send to stdout"), Oracle: c04CliBasic,
+				NonTrivial: func(i Resp) bool { return i["out"] != "-" && i["out"] != "" },
+				GroupCheck: func(first, self Resp) string {
+					if (first["class"] == "ok") != (self["exit"] == "0") {
+						return "library outcome " + first["class"] + ", binary exit status " + self["exit"]
+					}
+					return ""
+				}}
+			if prog == "{ print json($) }" && wellFormed {
+				var recs []interface{}
+				for _, v := range vals {
+					recs = append(recs, c04Records(v)...)
+				}
+				c.Oracle = func(i Resp) string {
+					if w := c04CliBasic(i); w != "" {
+						return w
+					}
+					return c04OutOracle(recs)(Resp{"class": "ok", "out": i["out"]})
+				}
+			}
+			emit(c)
+			continue
+		}
+		prog := pick(r, c04ReadOnlyProgs)
+		for prog == "$.a" { // a bare pattern prints the record: the others print nothing
+			prog = pick(r, c04ReadOnlyProgs)
+		}
+		own := ""
+		libCase := Case{ID: g + "/lib", Req: RunReq(prog, nil, lib, true), Fields: c04Fields, Group: g,
+			Meta: metaProg(prog, "input", short(data), "variant", "library run (reference of the group)")}
+		if wellFormed {
+			libCase.Oracle = c04RootOracle(vals[len(vals)-1])
+		}
+		emit(libCase)
+		for _, toFile := range []bool{false, true} {
+			toFile := toFile
+			o, ofile := "-", ""
+			cdisk := disk
+			preKind := "no -o file"
+			var pre []byte
+			preExists := false
+			if toFile {
+				o = pick(r, []string{"out.json", "100%.out", "%s"})
+				ofile = o
+				// the -o file may exist already: longer / shorter / as long as the JSON to be
+				// written (length learnt from the library, in the generator), empty, or the
+				// input file itself; what it held is JSON text, so that a stale tail shows as
+				// trailing garbage or a second value
+				preKind = pick(r, []string{"fresh file", "fresh file", "existing, longer", "existing, longer", "existing, shorter", "existing, equal length", "existing, one byte longer", "existing, empty", "the input file itself", "the input file itself"})
+				L := len(ParseResp(implAnswer(RunReq(prog, nil, lib, true))).Bytes("json"))
+				unit := "[{\"name\": \"alligator\", \"tags\": [\"a\", \"b\", \"c\"]}, {\"name\": \"someone else\", \"tags\": []}]\n"
+				old := strings.Repeat(unit, (2*L+200)/len(unit)+2)
+				switch preKind {
+				case "existing, longer":
+					pre, preExists = []byte(old[:L+1+r.Intn(L+150)]), true
+				case "existing, one byte longer":
+					pre, preExists = []byte(old[:L+1]), true
+				case "existing, shorter":
+					pre, preExists = []byte(old[:r.Intn(L+1)]), true
+				case "existing, equal length":
+					pre, preExists = []byte(old[:L]), true
+				case "existing, empty":
+					pre, preExists = []byte{}, true
+				case "the input file itself":
+					if useStdin {
+						preKind = "fresh file"
+					} else {
+						o, ofile, pre, preExists = name, name, []byte(data), true
+					}
+				}
+				if preExists && o != name {
+					cdisk = append(append([]CliFile{}, disk...), CliFile{Name: o, Data: pre})
+				}
+			}
+			argv := append([]string{pick(r, []string{"-o", "--o"}), o, prog}, names...)
+			if chance(r, 0.3) {
+				argv = append([]string{"-o=" + o, prog}, names...)
+			}
+			c := Case{ID: g + "/o=" + o, Req: CliReq(argv, stdin, useStdin, cdisk, ofile), Fields: c04CliFields, Group: g, NonTrivial: c04CliNT,
+				Meta: metaProg(prog, "input", short(data), "argv", strings.Join(argv, " ␣ "), "variant", "the binary with -o "+o, "-o target", fmt.Sprintf("%s (%d bytes before the run)", preKind, len(pre)))}
+			if wellFormed {
+				c.Oracle = c04CliJSONOracle(vals[len(vals)-1], toFile, own)
+			} else {
+				c.Oracle = func(i Resp) string {
+					if w := c04CliBasic(i); w != "" {
+						return w
+					}
+					if i["exit"] == "0" {
+						return "Go's decoder rejects this input (or it is empty) but the binary exits with status 0"
+					}
+					if !preExists && i["ofexists"] == "1" {
+						return "an -o file was written although the run failed"
+					}
+					if preExists && string(i.Bytes("ofile")) != string(pre) {
+						return "the run failed but the existing -o file was changed"
+					}
+					return ""
+				}
+			}
+			// byte-exact: what the binary wrote is GetRootJson's text
+			c.GroupCheck = func(first, self Resp) string {
+				if (first["class"] == "ok" && first["json"] != "ERR") != (self["exit"] == "0") {
+					return "library outcome " + first["class"] + " json=" + short(first["json"]) + ", binary exit status " + self["exit"]
+				}
+				if self["exit"] != "0" {
+					return ""
+				}
+				js := string(first.Bytes("json"))
+				got := string(self.Bytes("out"))
+				if toFile {
+					got = string(self.Bytes("ofile"))
+				}
+				if got != string(first.Bytes("out"))+js {
+					if toFile {
+						return fmt.Sprintf("the -o file holds %q, GetRootJson gives %q", short(got), short(js))
+					}
+					return fmt.Sprintf("-o - printed %q, GetRootJson gives %q", short(got), short(js))
+				}
+				return ""
+			}
+			emit(c)
+		}
+	}
 }
 
 func init() {
@@ -507,5 +813,11 @@ func init() {
 					Oracle: c04RootOracle(want), NonTrivial: c04HasJSON})
 			}
 		},
+	})
+
+	register(Family{
+		Name: "o-through-binary", Prop: "C04",
+		Rule: "documents whose string values AND keys are built from %, %d, %s, %%, %!, %[1]d, %!s(MISSING), backslashes, quotes, control characters, non-ASCII, shell-ish text and long runs (200 B - 70 kB), in every JSON escape form, plus the rich documents of o-roundtrip, run through the REAL BINARY with -o - and -o FILE (input as a file or on stdin; FILE fresh, or already existing and longer / one byte longer / shorter / as long as the JSON to be written / empty, or the input file itself) and a program that does not modify them; one Group per document with the library run first (compared with the model, Go re-parse oracle): the binary's answer is compared with the model's answer to the same command line (exit, stdout, stderr present, -o file), its JSON must be byte for byte GetRootJson's and must re-parse with encoding/json to the last input value; every fourth document goes through print / printf / json() instead (stdout of the binary = stdout of the library = the model's)",
+		Gen:  c04ThroughBinary,
 	})
 }
